@@ -438,3 +438,27 @@ Proof. eexists; eexists. split; [vm_compute; reflexivity | vm_compute; reflexivi
             ("C08_window_present", "IndexProofs.v", "window_present"),
             ("C08_window_absent", "IndexProofs.v", "window_absent")]),
 }
+
+# ---- ties to the expressions regenerated from the source by T1 (LeafTie.v), added per property ----
+def _add(pid, entries, imports=("GenLeaf", "LeafTie")):
+    t = TABLE[pid]
+    for i in imports:
+        if i not in t["imports"]: t["imports"].append(i)
+    t["entries"] += entries
+
+_add("C08", [("C08_search0_lo_tie", "LeafTie.v", "cmp_search0_lo_tie"), ("C08_search0_hi_tie", "LeafTie.v", "cmp_search0_hi_tie"),
+             ("C08_route_lo_tie", "LeafTie.v", "cmp_route_lo_tie"), ("C08_route_hi_tie", "LeafTie.v", "cmp_route_hi_tie"),
+             ("C08_search_lo_tie", "LeafTie.v", "cmp_search_lo_tie"), ("C08_search_hi_tie", "LeafTie.v", "cmp_search_hi_tie"),
+             ("C08_max_intercept_tie", "LeafTie.v", "cmp_max_intercept_tie"), ("C08_intercepts_count_tie", "LeafTie.v", "cmp_intercepts_count_tie"),
+             ("C08_clamp_tie", "LeafTie.v", "cmp_clamp_tie")])
+_add("C09", [("C09_search_lo_tie", "LeafTie.v", "bkt_search_lo_tie"), ("C09_search_hi_tie", "LeafTie.v", "bkt_search_hi_tie"),
+             ("C09_step_tie", "LeafTie.v", "bkt_step_tie"), ("C09_pow2_top_size_tie", "LeafTie.v", "bkt_pow2_top_size_tie"),
+             ("C09_pow2_shift_tie", "LeafTie.v", "bkt_pow2_shift_tie"), ("C09_ceil_int_div_spec", "LeafTie.v", "ceil_int_div_spec")])
+_add("C10", [("C10_search_lo_tie", "LeafTie.v", "efi_search_lo_tie"), ("C10_search_hi_tie", "LeafTie.v", "efi_search_hi_tie")])
+_add("C15", [("C15_bulk_used_levels_tie", "LeafTie.v", "dyn_bulk_used_levels_tie"), ("C15_bulk_levels_count_tie", "LeafTie.v", "dyn_bulk_levels_count_tie")])
+_add("C08", [("C08_level_far_double", "SatTie.v", "cmp_level_far_double"), ("C08_level_far_float", "SatTie.v", "cmp_level_far_float"),
+             ("C08_root_far_double", "SatTie.v", "cmp_root_far_double"), ("C08_root_far_float", "SatTie.v", "cmp_root_far_float"),
+             ("C08_below_limit_no_overflow", "SatTie.v", "below_limit_no_overflow")], imports=("Fp", "GenLeaf", "SatTie"))
+_add("C10", [("C10_far_double", "SatTie.v", "efi_far_double"), ("C10_far_float", "SatTie.v", "efi_far_float"),
+             ("C10_below_limit_no_overflow", "SatTie.v", "below_limit_no_overflow")], imports=("Fp", "GenLeaf", "SatTie"))
+_add("C01", [("C01_too_far_value", "SatTie.v", "pgm_too_far_value")], imports=("Fp", "GenLeaf", "SatTie"))
